@@ -17,19 +17,19 @@ Open Scope Z_scope.
 (* ------------------------------------------------------------------------------------ *)
 (* integer parsers *)
 
-Definition int_min (bits : Z) : Z := - 2 ^ (bits - 1).
-Definition int_max (bits : Z) : Z := 2 ^ (bits - 1) - 1.
-Definition in_range (bits v : Z) : bool := (int_min bits <=? v) && (v <=? int_max bits).
+Definition gd_int_min (bits : Z) : Z := - 2 ^ (bits - 1).
+Definition gd_int_max (bits : Z) : Z := 2 ^ (bits - 1) - 1.
+Definition gd_in_range (bits v : Z) : bool := (gd_int_min bits <=? v) && (v <=? gd_int_max bits).
 
-Definition digit_val (b : N) : option Z :=
+Definition gd_digit_val (b : N) : option Z :=
   if ((48 <=? b) && (b <=? 57))%N then Some (Z.of_N b - 48) else None.
 
 (* value of a non-empty all-digit string; None as soon as a non-digit is met *)
-Fixpoint digits_val (acc : Z) (l : list N) : option Z :=
+Fixpoint gd_digits_val (acc : Z) (l : list N) : option Z :=
   match l with
   | [] => Some acc
-  | b :: r => match digit_val b with
-              | Some d => digits_val (acc * 10 + d) r
+  | b :: r => match gd_digit_val b with
+              | Some d => gd_digits_val (acc * 10 + d) r
               | None => None
               end
   end.
@@ -38,29 +38,29 @@ Fixpoint digits_val (acc : Z) (l : list N) : option Z :=
    (underscores are accepted for base 0 only), value in range. The implementation stops
    at a cutoff while accumulating; the result is the same as computing the value exactly
    and comparing afterwards. A range error is an error for every caller in trzsz. *)
-Definition parse_int (bits : Z) (s : list N) : option Z :=
+Definition gd_parse_int (bits : Z) (s : list N) : option Z :=
   match s with
   | [] => None
   | c :: r =>
     let '(neg, ds) := if (c =? 43)%N then (false, r) else if (c =? 45)%N then (true, r) else (false, s) in
     match ds with
     | [] => None
-    | _ => match digits_val 0 ds with
+    | _ => match gd_digits_val 0 ds with
            | None => None
            | Some v => let v' := if neg then - v else v in
-                       if in_range bits v' then Some v' else None
+                       if gd_in_range bits v' then Some v' else None
            end
     end
   end.
 
-Definition parse_int64 := parse_int 64.
-Definition atoi := parse_int 64.           (* int is 64 bits on every supported platform *)
+Definition gd_parse_int64 := gd_parse_int 64.
+Definition gd_atoi := gd_parse_int 64.           (* int is 64 bits on every supported platform *)
 
 (* strconv.ParseUint(s, 10, 32) of the version components: no sign at all *)
-Definition parse_uint32 (s : list N) : option Z :=
+Definition gd_parse_uint32 (s : list N) : option Z :=
   match s with
   | [] => None
-  | _ => match digits_val 0 s with
+  | _ => match gd_digits_val 0 s with
          | Some v => if v <=? 2 ^ 32 - 1 then Some v else None
          | None => None
          end
@@ -77,15 +77,15 @@ Inductive jnum :=
 | JInt (v : Z)            (* integer literal: optional minus, then 0 or a digit string without leading zero *)
 | JOther.                 (* fraction / exponent / string / bool / array / object *)
 
-Definition json_int (bits : Z) (dflt : Z) (j : jnum) : option Z :=
+Definition gd_json_int (bits : Z) (dflt : Z) (j : jnum) : option Z :=
   match j with
   | JAbsent | JNull => Some dflt
-  | JInt v => if in_range bits v then Some v else None
+  | JInt v => if gd_in_range bits v then Some v else None
   | JOther => None
   end.
 
 (* The literal itself: optional minus, 0 or [1-9][0-9]... gives JInt, anything else JOther. *)
-Definition json_int_literal (s : list N) : jnum :=
+Definition gd_json_int_literal (s : list N) : jnum :=
   let '(neg, body) := match s with
                       | c :: r => if (c =? 45)%N then (true, r) else (false, s)
                       | [] => (false, s)
@@ -94,7 +94,7 @@ Definition json_int_literal (s : list N) : jnum :=
   | [] => JOther
   | c :: r =>
     if (c =? 48)%N then match r with [] => JInt 0 | _ => JOther end
-    else match digits_val 0 body with
+    else match gd_digits_val 0 body with
          | Some v => JInt (if neg then - v else v)
          | None => JOther
          end
@@ -109,21 +109,21 @@ Record cfg := { bufsize : Z;        (* transferConfig.MaxBufSize after recvConfi
 (* recvConfig (client): `bufsize` is an int64 JSON field with default 10 MiB, clamped to
    the largest value the servers' argument parser accepts *)
 Definition recv_config_bufsize (j : jnum) : option Z :=
-  match json_int 64 Consts.guards_default_bufsize j with
+  match gd_json_int 64 Consts.guards_default_bufsize j with
   | Some b => Some (if b >? Consts.guards_bufsize_clamp then Consts.guards_bufsize_clamp else b)
   | None => None
   end.
-Definition recv_config_bufsize_unfixed (j : jnum) : option Z := json_int 64 Consts.guards_default_bufsize j.
+Definition recv_config_bufsize_unfixed (j : jnum) : option Z := gd_json_int 64 Consts.guards_default_bufsize j.
 
 (* bufferSize.UnmarshalText bounds (the servers' own -B argument) *)
 Definition arg_bufsize_ok (b : Z) : bool := (Consts.guards_arg_bufsize_min <=? b) && (b <=? Consts.guards_arg_bufsize_max).
 
 (* int64 wrap-around of a product, as Go computes it *)
-Definition wrap64 (v : Z) : Z := (v + 2 ^ 63) mod 2 ^ 64 - 2 ^ 63.
+Definition gd_wrap64 (v : Z) : Z := (v + 2 ^ 63) mod 2 ^ 64 - 2 ^ 63.
 
 (* maxDataSize *)
 Definition max_data_size (c : cfg) : Z :=
-  wrap64 ((if bufsize c <? Consts.guards_data_min_bufsize then Consts.guards_data_min_bufsize else bufsize c)
+  gd_wrap64 ((if bufsize c <? Consts.guards_data_min_bufsize then Consts.guards_data_min_bufsize else bufsize c)
           * Consts.guards_data_factor).
 
 (* what the bound is without overflow: linear in the negotiated buffer size *)
@@ -139,7 +139,7 @@ Inductive data_res :=
 
 (* pipelineRecvBinaryData: ParseInt, size == 0, the bound, readBinary(int(size)) *)
 Definition recv_binary_data_v2 (c : cfg) (s : list N) : data_res :=
-  match parse_int64 s with
+  match gd_parse_int64 s with
   | None => DReject
   | Some n => if n =? 0 then DFinish
               else if (n <? 0) || (n >? max_data_size c) then DReject
@@ -148,7 +148,7 @@ Definition recv_binary_data_v2 (c : cfg) (s : list N) : data_res :=
 
 (* recvData (protocol 1): recvInteger, the bound, readBinary(int(size)) *)
 Definition recv_binary_data_v1 (c : cfg) (s : list N) : data_res :=
-  match parse_int64 s with
+  match gd_parse_int64 s with
   | None => DReject
   | Some n => if (n <? 0) || (n >? max_data_size c) then DReject else DRead n
   end.
@@ -156,7 +156,7 @@ Definition recv_binary_data_v1 (c : cfg) (s : list N) : data_res :=
 (* before the fix: no bound; readBinary(size) pre-allocated size bytes (Grow) when
    size > cap, did nothing for size <= 0 *)
 Definition recv_binary_data_v2_unfixed (c : cfg) (s : list N) : data_res :=
-  match parse_int64 s with
+  match gd_parse_int64 s with
   | None => DReject
   | Some n => if n =? 0 then DFinish else DRead n
   end.
@@ -167,8 +167,8 @@ Definition read_binary_held (n arrived : Z) : Z := Z.max 0 (Z.min n arrived).
 Definition read_binary_held_unfixed (n arrived : Z) : Z := Z.max 0 n.
 
 Definition data_accepted (c : cfg) (n : Z) : bool :=
-  in_range 64 n && negb (n <? 0) && negb (n >? max_data_size c).
-Definition data_accepted_unfixed (c : cfg) (n : Z) : bool := in_range 64 n.
+  gd_in_range 64 n && negb (n <? 0) && negb (n >? max_data_size c).
+Definition data_accepted_unfixed (c : cfg) (n : Z) : bool := gd_in_range 64 n.
 
 (* ------------------------------------------------------------------------------------ *)
 (* prefix hash step -> make([]byte, step) and io.ReadFull *)
@@ -217,7 +217,7 @@ Definition hash_accepted_unfixed (step : Z) : bool := true.
 (* pipelineRecvCurrentAck: "<length>/<step>", both ParseInt; the caller compares length
    with what was sent; NOTHING is checked about step before it goes to progress.onStep *)
 Definition recv_current_ack (a b : list N) : option (Z * Z) :=
-  match parse_int64 a, parse_int64 b with
+  match gd_parse_int64 a, gd_parse_int64 b with
   | Some l, Some s => Some (l, s)
   | _, _ => None
   end.
@@ -227,7 +227,7 @@ Definition ack_accepted (sent len step : Z) : bool := len =? sent.
    step is forwarded to the progress goroutine; done when step = size *)
 Inductive fack := FCancel | FForward (step : Z) (done : bool).
 Definition recv_final_ack (size : Z) (s : list N) : fack :=
-  match parse_int64 s with
+  match gd_parse_int64 s with
   | None => FCancel
   | Some st => if st >? size then FCancel else FForward st (st =? size)
   end.
@@ -260,25 +260,25 @@ Definition bar_columns (term pane : Z) : Z := bar_columns_of term (pane_sanitize
 Definition bar_columns_unfixed (term pane : Z) : Z := bar_columns_of term pane.
 
 (* recvConfig: int32 JSON field, default 0 *)
-Definition recv_config_pane (j : jnum) : option Z := json_int 32 0 j.
+Definition recv_config_pane (j : jnum) : option Z := gd_json_int 32 0 j.
 
 (* recvConfig as a whole: any field that fails to decode fails the configuration *)
 Definition recv_config (jb jp jt jpr : jnum) : option (Z * Z * Z * Z) :=
-  match recv_config_bufsize jb, recv_config_pane jp, json_int 64 Consts.guards_default_timeout jt, json_int 64 0 jpr with
+  match recv_config_bufsize jb, recv_config_pane jp, gd_json_int 64 Consts.guards_default_timeout jt, gd_json_int 64 0 jpr with
   | Some b, Some p, Some t, Some pr => Some (b, p, t, pr)
   | _, _, _, _ => None
   end.
 
 (* parseTrzszVersion on the three components *)
-Definition parse_version (a b c : list N) : option (Z * Z * Z) :=
-  match parse_uint32 a, parse_uint32 b, parse_uint32 c with
+Definition gd_parse_version (a b c : list N) : option (Z * Z * Z) :=
+  match gd_parse_uint32 a, gd_parse_uint32 b, gd_parse_uint32 c with
   | Some x, Some y, Some z => Some (x, y, z)
   | _, _, _ => None
   end.
 
 (* unmarshalTargetFile: int64 field, default 0, negative rejected *)
-Definition target_size (j : jnum) : option Z :=
-  match json_int 64 0 j with
+Definition gd_target_size (j : jnum) : option Z :=
+  match gd_json_int 64 0 j with
   | Some v => if v <? 0 then None else Some v
   | None => None
   end.
@@ -330,18 +330,18 @@ Definition sink_of (f : flow) : sink :=
 Definition guard (f : flow) (c : cfg) (aux n : Z) : bool :=
   match f with
   | FDataSizeV2 | FDataSizeV1 => data_accepted c n
-  | FHashStep => in_range 64 n && hash_accepted (n - aux)
-  | FAckStep => in_range 64 n                                   (* no check at all *)
-  | FAckLen => in_range 64 n && (n =? aux)
-  | FFinalStep => in_range 64 n && negb (n >? aux)
-  | FHashAckStep => in_range 64 n                               (* shown before checked *)
-  | FPaneWidth => in_range 32 n
-  | FNum | FSize | FNameSize | FArchiveSize => in_range 64 n
-  | FTargetSize => in_range 64 n && negb (n <? 0)
-  | FBufsize => in_range 64 n
-  | FTimeout | FProtocol => in_range 64 n
+  | FHashStep => gd_in_range 64 n && hash_accepted (n - aux)
+  | FAckStep => gd_in_range 64 n                                   (* no check at all *)
+  | FAckLen => gd_in_range 64 n && (n =? aux)
+  | FFinalStep => gd_in_range 64 n && negb (n >? aux)
+  | FHashAckStep => gd_in_range 64 n                               (* shown before checked *)
+  | FPaneWidth => gd_in_range 32 n
+  | FNum | FSize | FNameSize | FArchiveSize => gd_in_range 64 n
+  | FTargetSize => gd_in_range 64 n && negb (n <? 0)
+  | FBufsize => gd_in_range 64 n
+  | FTimeout | FProtocol => gd_in_range 64 n
   | FVersion => (0 <=? n) && (n <=? 2 ^ 32 - 1)
-  | FPort => in_range 64 n
+  | FPort => gd_in_range 64 n
   end.
 
 (* the amount that reaches the sink for an accepted number *)
@@ -364,7 +364,7 @@ Definition bound (f : flow) (c : cfg) : Z :=
 Definition guard_unfixed (f : flow) (c : cfg) (aux n : Z) : bool :=
   match f with
   | FDataSizeV2 | FDataSizeV1 => data_accepted_unfixed c n
-  | FHashStep => in_range 64 n
+  | FHashStep => gd_in_range 64 n
   | _ => guard f c aux n
   end.
 Definition amount_unfixed (f : flow) (c : cfg) (aux n : Z) : Z :=
